@@ -5,9 +5,9 @@ package main
 // parameters bound at their call sites (constants, opts.JSON, the caller's own binding).
 
 import (
+	"fmt"
 	"go/token"
 	"os"
-	"fmt"
 	"sort"
 	"strings"
 
@@ -304,7 +304,9 @@ func (o *ou1) merge(s, sub *ou1Summary, b *ssa.BasicBlock, wMin, wMax []int) {
 }
 
 // definitelyFails: the returned error is freshly built or is some call's error on that call's non-nil edge.
-func (o *ou1) definitelyFails(fn *ssa.Function, r *ssa.Return) bool { return o.c.definitelyFails(fn, r) }
+func (o *ou1) definitelyFails(fn *ssa.Function, r *ssa.Return) bool {
+	return o.c.definitelyFails(fn, r)
+}
 
 // definitelyFails: the return hands back an error that is non-nil on every path reaching it.
 func (c *Ctx) definitelyFails(fn *ssa.Function, r *ssa.Return) bool {
